@@ -25,7 +25,7 @@ inline std::string describe_seq(const SeqProg &p) {
     hz::Desc d; d << "publisher(max " << (p.maxq ? std::to_string(p.maxq) : std::string("unlimited")) << ", min " << (unsigned)p.minq << "), " << (unsigned)p.ops.size() << " ops:";
     for (auto &o : p.ops) {
         d << " " << opn[o.code];
-        if (o.code == 3) d << "(" << (unsigned)(1 + o.a % 4) << ")";
+        if (o.code == 3) d << "(" << (unsigned)(o.a % 5) << ")";
         if (o.code == 4 || o.code == 5) d << "[" << modes[o.a % 3] << "]";
         if (o.code == 7 || o.code == 10) d << "(" << (o.b % 3 == 0 ? "awaited by a coroutine" : o.b % 3 == 1 ? "blocking when ready" : "polled") << ")";
         if (o.code == 8) d << "(" << (o.b % 3 == 0 ? "kick" : o.b % 3 == 1 ? "kick_me" : "leave") << ")";
@@ -102,7 +102,7 @@ struct SeqRun {
         for (auto &o : p.ops) {
             switch (o.code) {
                 case 0: case 1: case 2: if (!closed) { n++; pub->publish((int)n); } break;
-                case 3: if (!closed) { std::vector<int> b; unsigned k = 1 + o.a % 4; for (unsigned i = 0; i < k; i++) b.push_back((int)(n + 1 + i)); n += k; pub->publish(b.begin(), b.end()); } break;
+                case 3: if (!closed) { std::vector<int> b; unsigned k = o.a % 5; for (unsigned i = 0; i < k; i++) b.push_back((int)(n + 1 + i)); n += k; pub->publish(b.begin(), b.end()); } break;   // (k == 0: an empty batch changes nothing)
                 case 4: if (subs.size() < 4 && pub) { subs.emplace_back(new SubM()); SubM &m = *subs.back(); m.mode = o.a % 3; m.c = n; m.s.reset(new Sub(*pub, (ST)m.mode)); } break;
                 case 5: if (subs.size() < 4 && pub && n > 0) {
                     // a position inside the window the documentation promises to retain (min_queue_len)
@@ -229,7 +229,8 @@ struct MtRun {
         std::thread pt([this, &prog, two] {
             for (unsigned k = 0; k < prog.count; k++) {
                 hz::upoints(prog.pub_yields);
-                if (k == prog.batch_at) { std::vector<int> b{(int)total + 1, (int)total + 2}; total += 2; pub->publish(b.begin(), b.end()); }
+                if (k == prog.batch_at) { std::vector<int> e; pub->publish(e.begin(), e.end());    // an empty batch: nobody may notice
+                                          std::vector<int> b{(int)total + 1, (int)total + 2}; total += 2; pub->publish(b.begin(), b.end()); }
                 else { total++; pub->publish((int)total); }
             }
             hz::upoints(prog.pub_yields);
